@@ -38,9 +38,9 @@ Latitude (the property text leaves these open, every admissible answer is accept
     collection-level qualifiers are not genes and are not compared (an informational counter records when they differ).
 
 Findings on the unchanged tree (see classify):
-  K18.1  rank 0 (feature_name / feature_id) is treated as "nothing found yet" -> a later, lower-priority key wins.
-  K18.2  inside one locus-tag group the LOCUS_TAG parser resolves "one of several" choices by file order.
-  K18.3  a key with a trailing newline matches the ``^key$`` regex and raises KeyError in the enum lookup.
+  K30  rank 0 (feature_name / feature_id) is treated as "nothing found yet" -> a later, lower-priority key wins.
+  K31  inside one locus-tag group the LOCUS_TAG parser resolves "one of several" choices by file order.
+  K32  a key with a trailing newline matches the ``^key$`` regex and raises KeyError in the enum lookup.
 """
 import itertools
 import json
@@ -63,7 +63,7 @@ NOT_TYPE = ["type", "class", "gb_key", "gene", "note", "Regulator_lass", "typ_e"
 TYPE_POOL = TYPE_LIKE + NOT_TYPE
 SCOPE = {
     "quick": {"core": 5, "wide": 4, "types": 4, "nmerge": 4000, "gbk": [(2, 32), (3, 64), (4, 48), (5, 24), (6, 4)], "gbk_ambig": [(3, 16), (4, 16), (5, 8)]},
-    "thorough": {"core": 7, "wide": 5, "types": 5, "nmerge": 40000, "gbk": [(2, 100), (3, 300), (4, 600), (5, 500), (6, 160), (7, 24)],
+    "thorough": {"core": 7, "wide": 5, "types": 5, "nmerge": 40000, "gbk": [(2, 100), (3, 300), (4, 500), (5, 400), (6, 100), (7, 16)],
                  "gbk_ambig": [(3, 32), (4, 32), (5, 32), (6, 16)]},
 }
 EXHAUSTIVE_SCOPE = {
@@ -151,7 +151,7 @@ def ref_merge(a, b):
 
 
 def buggy_pick(items, priority):
-    """The K18.1 mechanism, re-derived for the classifier: rank 0 counts as 'nothing found yet'."""
+    """The K30 mechanism, re-derived for the classifier: rank 0 counts as 'nothing found yet'."""
     best, val = None, None
     for key, v in items:
         k = key.lower()
@@ -167,7 +167,7 @@ def selftest():
 
     lit = [  # literal examples of tests/io/test_feature.py whose expectation does not contradict the enum docstring
         # ("the key-value pair found with the smallest value is the most important"); the three parametrisations that pin
-        # "ID beats feature_id when feature_id is listed first" are K18.1 itself and are deliberately not used.
+        # "ID beats feature_id when feature_id is listed first" are K30 itself and are deliberately not used.
         ({"feature_name": ["abc"], "feature_id": ["123"]}, "abc", "123"),
         ({"feature_id": ["123", "abc"]}, None, "123"),
         ({"Gene": ["notcool"], "Standard_name": ["cool"]}, "cool", None),
@@ -681,7 +681,7 @@ def _groups(features):
 
 def file_order_mechanisms(g):
     """Which 'first in file order wins' choices the LOCUS_TAG parser makes inside one locus-tag group, and the gene
-    fields each can change (K18.2).  Derived from parser.py: _group_features_by_locus_tag keeps transcript_features[0]
+    fields each can change (K31).  Derived from parser.py: _group_features_by_locus_tag keeps transcript_features[0]
     whenever CDS features exist; _convert_seqfeature_to_gene infers a missing gene from transcript_features[0], else cds_features[0];
     to_gene_model takes Counter.most_common(1) of the child biotypes (ties -> first inserted)."""
     mech = {}
@@ -794,9 +794,9 @@ def run_case(case, ctx):
 # ----------------------------------------------------------------------------------------------------------------
 # classifier of recorded findings (mechanistic: the mechanism is re-derived from the witness)
 # ----------------------------------------------------------------------------------------------------------------
-K1 = "K18.1-rank0-identifier-key-listed-first-loses"
-K2 = "K18.2-locus-tag-group-resolved-in-file-order"
-K3 = "K18.3-key-with-trailing-newline-raises-keyerror"
+K1 = "K30-rank0-identifier-key-listed-first-loses"
+K2 = "K31-locus-tag-group-resolved-in-file-order"
+K3 = "K32-key-with-trailing-newline-raises-keyerror"
 
 
 def _is_k1(items, got):
@@ -810,16 +810,16 @@ def _is_k1(items, got):
 
 
 def classify(v):
-    """K18.1: the wrong (name, id) equals what the selection computes when rank 0 counts as 'nothing found yet' (buggy_pick on
-    the witness' own insertion order), for a twin violation both answers are either right or that.  K18.2: every differing gene
+    """K30: the wrong (name, id) equals what the selection computes when rank 0 counts as 'nothing found yet' (buggy_pick on
+    the witness' own insertion order), for a twin violation both answers are either right or that.  K31: every differing gene
     belongs to a locus tag whose group (recomputed from the case) forces the parser to pick 'the first in file order', and only
-    fields that this pick decides differ.  K18.3: KeyError naming the upper-cased key, the key is a recognised key + newline."""
+    fields that this pick decides differ.  K32: KeyError naming the upper-cased key, the key is a recognised key + newline."""
     mon, d, case = v.get("monitor"), v.get("detail") or {}, v.get("case") or {}
     try:
         if mon == "extract.priority" and "got" in d:
             return K1 if _is_k1(d["q"], d["got"]) else None
         if mon == "extract.order-independent" and "got1" in d:
-            # every observed answer is either correct or the K18.1 answer of its own insertion order, and >= 1 is K18.1
+            # every observed answer is either correct or the K30 answer of its own insertion order, and >= 1 is K30
             verdicts = []
             for q, got in ((d["q1"], d["got1"]), (d["q2"], d["got2"])):
                 names, ids, _ = ref_name_id(dict((k, v2) for k, v2 in q))
